@@ -297,9 +297,11 @@ def gen_make(rng, sid, small=True, allow_bad=True):
         n = rng.randint(1, 12)
         mode = rng.choice(('numeric', 'alphanumeric', 'byte'))
     content = gen.text(rng, mode, n if mode not in ('kanji', 'hanzi') else max(1, n // 3))
+    if mode in ('numeric', 'alphanumeric') and rng.random() < 0.15:
+        content = gen.near_text(rng, n)
     if mode == 'hanzi':
         kw['mode'] = 'hanzi'
-    if mode == 'numeric' and rng.random() < 0.3:
+    if mode == 'numeric' and content.isdigit() and rng.random() < 0.3:
         content = int(content.lstrip('0') or '0')
     if rng.random() < 0.08 and mode in ('numeric', 'alphanumeric', 'byte'):
         content = [content if not isinstance(content, int) else str(content), gen.text(rng, rng.choice(('numeric', 'byte')), rng.randint(1, 8), 'ascii')]
@@ -316,8 +318,10 @@ def gen_make(rng, sid, small=True, allow_bad=True):
                 else rng.randint(1, 6 if small else 25)
             if fn == 'make_qr' and isinstance(kw['version'], str):
                 kw['version'] = 2
-        if fn != 'make_micro' and rng.random() < 0.1 and kw.get('micro') is not True and not isinstance(kw.get('version'), str):
+        if fn != 'make_micro' and rng.random() < 0.18 and kw.get('micro') is not True and not isinstance(kw.get('version'), str):
             kw['eci'] = True
+            if isinstance(content, str) and rng.random() < 0.5:
+                kw['encoding'] = rng.choice(('utf-8', 'iso-8859-15', 'cp1252', 'shift_jis', 'utf-16'))
     if rng.random() < 0.4:
         kw['error'] = rng.choice(('L', 'M', 'Q', 'H', 'l', 'm', 'q'))
     if rng.random() < 0.3:
